@@ -101,9 +101,20 @@ def run_translators(names):
             errs.append('translator %s failed: %s' % (n, e))
     return errs
 
+def ensure_coqproject():
+    """_CoqProject lists every .v under coq/ (dependency order is computed by coqdep through coq_makefile)."""
+    files = []
+    for root, _, fs in os.walk(COQ):
+        for f in fs:
+            if f.endswith('.v') and not f.startswith('.'):
+                files.append(os.path.relpath(os.path.join(root, f), COQ))
+    text = '-Q . DS\n' + '\n'.join(sorted(files)) + '\n'
+    return write_if_changed(os.path.join(COQ, '_CoqProject'), text)
+
 def coq_make(targets, timeout=1800):
     """Build the given .vo targets (full .vo build) under the shared lock. Returns (ok, log)."""
     with Lock('coq'):
+        ensure_coqproject()
         if not os.path.exists(os.path.join(COQ, 'Makefile')) or \
            os.path.getmtime(os.path.join(COQ, 'Makefile')) < os.path.getmtime(os.path.join(COQ, '_CoqProject')):
             rc, out, _ = sh('coq_makefile -f _CoqProject -o Makefile', cwd=COQ, timeout=120)
